@@ -223,7 +223,13 @@ def io_thread_func(blockshape, store_headers, headers_dict, geom, plane_set_id, 
                     seismicfile.iline[seismicfile.ilines[geom.ilines[0] + plane_set_id * blockshape[0] + i]]
                 )[geom.xlines[0]:geom.xlines[-1]+1, :]
                 if store_headers:
-                    headers = seismicfile.header[start_trace: start_trace + len(geom.xlines)]
+                    if getattr(seismicfile, 'sorting', None) == segyio.TraceSortingFormat.CROSSLINE_SORTING:
+                        # Crossline-sorted file: the traces of one inline are n_ilines apart
+                        n_il_file = len(seismicfile.ilines)
+                        first = geom.xlines[0] * n_il_file + geom.ilines[0] + plane_set_id * blockshape[0] + i
+                        headers = seismicfile.header[first: first + len(geom.xlines) * n_il_file: n_il_file]
+                    else:
+                        headers = seismicfile.header[start_trace: start_trace + len(geom.xlines)]
 
             if store_headers:
                 for t, header in enumerate(headers, start_trace):
